@@ -129,12 +129,12 @@ CLAIMS = {
 
 EXTRA = {
  'C01': 'Key-space refinement (FR.Props.C01k): every table command is a function of the clock and the live key space (refinement, history_refinement); full SET option decision table for both versions (set_table), '
-        'MGET/MSET/MSETNX all-or-nothing, INCR family incl. the refused INT64_MIN decrement, INCRBYFLOAT, DEL/UNLINK/EXISTS/TYPE/BITCOUNT, RENAME(NX) moves value and deadline, DUMP/RESTORE round trip and independent copy. ',
+        'MGET/MSET/MSETNX all-or-nothing, INCR family incl. the refused INT64_MIN decrement, INCRBYFLOAT, DEL/UNLINK/EXISTS/TYPE/BITCOUNT, RENAME(NX) moves value and deadline, DUMP/RESTORE round trip and independent copy for every type (FR.Props.C01d: lists/hashes exact, sets up to order, sorted sets bit-exact under the invariant). ',
  'C02': 'Hashes as finite maps and sets as membership predicates (FR.Props.C02h: hset/hdel/hincrby/hincrbyfloat, sunion/sinter/sdiff and their STORE forms, smove, pfadd/pfcount/pfmerge, wrong-type refusals, invariants preserved); '
         'SORT (FR.Props.C02s: option grammar, numeric_sort = the unique stable sorted permutation with ties by element, alpha_sort, limit_slice, by_nosort, by_weight, get_expansion, store, last_by_decides). ',
  'C03': 'ZUNIONSTORE/ZINTERSTORE functional specification (FR.Props.C03s: membership, score = fold of the aggregate over weight*score over sources sorted by cardinality with the NaN->0 rule where the code applies it, stored set satisfies the invariant, run_ok / run_error through the dispatcher, watchers notified). ',
  'C04': 'Chunking independence is now unconditional (FR.Props.C04s): bufIndependent proves that command processing neither reads nor writes the input buffer (all special commands, EXEC, scripts), hence sendall a; sendall b = sendall (a ++ b), sendChunks_flatten and chunking_irrelevant for every chunking of every byte stream while the connection is alive; aliveness_needed is the KF-1 witness. ',
- 'C06': 'System level, every event and history (FR.Props.C06s): step_sound / request_sound (any change of the live entry of a watched key, by any command of any client incl. MOVE, SWAPDB, FLUSH*, SORT STORE, ZUNIONSTORE, blocking wake-ups, EXEC inner commands, scripts, sets the flag), sticky, quiet_keeps_watch, history_changed + exec_nil_after_change ("even if later changed back"), regular_flag_exact (only a notification of a watched key sets it); kernel-checked witnesses that the clock exclusion is necessary and that a state-wise reading fails for pipelined UNWATCH/SET/WATCH. ',
+ 'C06': 'System level, every event and history (FR.Props.C06s): step_sound / request_sound (any change of the live entry of a watched key, by any command of any client incl. MOVE, SWAPDB, FLUSH*, SORT STORE, ZUNIONSTORE, blocking wake-ups, EXEC inner commands, scripts, sets the flag), sticky, quiet_keeps_watch, history_changed + exec_nil_after_change ("even if later changed back"), regular_flag_exact (only a notification of a watched key sets it); FR.Props.C06k: the notified keys of every regular command are a sublist of its key arguments, read commands notify nothing, exec_proceeds (EXEC runs its queue after any history of commands that name no watched key), and which keys each special command may notify; kernel-checked witnesses that the clock exclusion is necessary and that a state-wise reading fails for pipelined UNWATCH/SET/WATCH. ',
  'C07': 'Twin simulation over every event (FR.Props.C07s): twin_step, twin_history, expired_eq_deleted_forever - a state with an expired key and the state with that key deleted are indistinguishable by any history with a monotone clock (clock_backwards_resurrects shows the hypothesis is necessary). TTL rules (FR.Props.C07t): ttl_cases with the half-up rounding rule, EXPIRE family / PERSIST, SETEX / SET EX|PX / RESTORE, replacing commands clear (set_general, getset, mset, *STORE), in-place commands keep (inplace_general, inplace_commands_keep, pfmerge_keeps), RENAME / MOVE carry the deadline, inside_exec. ',
  'C08': 'Every command (FR.Props.C08s): error_reply_changes_nothing at processCommand level (databases purge-equal, subscription tables, scripts, every other connection identical; own connection only txFailed inside MULTI), each erring inner command of EXEC and each erring redis.call, wrongtype_request; the short-circuit on a missing first key is the one exception (wrongtype_masked_by_missing_key). ',
  'C11': 'Histories (FR.Props.C11s): no_lost_wakeup is an invariant of every reachable state over all commands; stored lists are never empty; wake_conserves / bpop_pass_conserves; a wake-up serves the first non-empty key with its head/tail element. ',
@@ -143,7 +143,6 @@ EXTRA = {
 }
 NOTE_FIX = {
  'C04': 'KF-1 is the only known way to kill a connection parser; the generator-based Python parser is tied by chunked sends. ',
- 'C06': 'The inclusion notified <= key arguments is not proved per body (completeness is stated over the notified list). ',
 }
 
 PENDING = 'check under construction in this round'
